@@ -149,7 +149,8 @@ import requests
 from requests.packages import urllib3
 
 from . import _cim_xml
-from .config import DEFAULT_ITER_MAXOBJECTCOUNT, AUTO_GENERATE_SFCB_UEP_HEADER
+from .config import DEFAULT_ITER_MAXOBJECTCOUNT, \
+    AUTO_GENERATE_SFCB_UEP_HEADER, SEND_VALUE_NULL
 from ._cim_constants import DEFAULT_NAMESPACE, CIM_ERR_NOT_SUPPORTED, \
     CIM_ERR_FAILED, DEFAULT_TIMEOUT
 from ._cim_types import CIMType, CIMDateTime, atomic_to_cim_xml
@@ -2166,9 +2167,18 @@ class WBEMConnection:  # pylint: disable=too-many-instance-attributes
                 # CIMClass.tocimxml() always ignores path
                 return _cim_xml.VALUE(obj.tocimxml().toxml())
             if isinstance(obj, list):
-                if obj and isinstance(obj[0], (CIMClassName, CIMInstanceName)):
-                    return _cim_xml.VALUE_REFARRAY([paramvalue(x) for x in obj])
-                return _cim_xml.VALUE_ARRAY([paramvalue(x) for x in obj])
+                def array_item(item):
+                    # NULL array entries
+                    if item is None:
+                        if SEND_VALUE_NULL:
+                            return _cim_xml.VALUE_NULL()
+                        return _cim_xml.VALUE(None)
+                    return paramvalue(item)
+                if any(isinstance(x, (CIMClassName, CIMInstanceName))
+                       for x in obj):
+                    return _cim_xml.VALUE_REFARRAY(
+                        [array_item(x) for x in obj])
+                return _cim_xml.VALUE_ARRAY([array_item(x) for x in obj])
             # The type has been checked in infer_type(), so we can assert
             assert obj is None
 
